@@ -517,6 +517,25 @@ func runC12(c *core.Ctx) {
 			}
 		}
 	})
+	// worker counts: none given, zero, negative, more goroutines than lanes and than cores; target 0 and 1; nil data
+	{
+		data := []byte("worker counts")
+		ws := map[string]*powv2.Worker{"New()": powv2.New(), "New(0)": powv2.New(0), "New(-3)": powv2.New(-3), "New(65)": powv2.New(65), "New(1000)": powv2.New(1000)}
+		for name, w := range ws {
+			for _, tc := range []struct {
+				d []byte
+				t uint64
+			}{{data, 5}, {nil, 1}, {[]byte{}, 3}, {data, 0}} {
+				var nonce uint64
+				var err error
+				p := core.Catch(func() { nonce, err = w.Mine(context.Background(), tc.d, tc.t) })
+				c.Eval(1)
+				if p != nil || err != nil || refScoreV2FromHash(refPowHashV2(tc.d, nonce), len(tc.d)+8) < tc.t {
+					c.Violate("C12/environment/worker-count", fmt.Sprintf("v2.%s, %d-byte data, target %d: Mine = %d, %v (panic %v)", name, len(tc.d), tc.t, nonce, err, p), name, "", nil)
+				}
+			}
+		}
+	}
 	// one Worker (and the package as a whole) used for a sequence of calls with different (length, target) pairs that
 	// share length*target products in various ways; every nonce must meet the target of its own call
 	for _, workers := range []int{1, 3, 16} {
